@@ -264,12 +264,14 @@ package larking
 //@        && same(l.toks[old(l.len)].val, l.input[old(l.start):l.pos])
 //@   ensures [frame] forall k :: 0 <= k && k < old(l.len) ==> l.toks[k].typ == old(l.toks[k].typ) && same(l.toks[k].val, old(l.toks[k].val))
 //@   ensures [limit] err != nil ==> old(l.len) >= 64 && l.len == old(l.len) && l.start == old(l.start)
+//@   ensures [elem-frame] frame_elems(l.toks)
 
 //@ func (*lexer).errUnexpected serves C01 C02 C16 C09
 //@   returns (err)
 //@   requires LexInv(l)
 //@   modifies F$lexer.len, F$lexer.start, E$token
 //@   ensures [inv] LexInv(l) && err != nil
+//@   ensures [elem-frame] frame_elems(l.toks)
 //@   ensures [frame] forall k :: 0 <= k && k < old(l.len) ==> l.toks[k].typ == old(l.toks[k].typ) && same(l.toks[k].val, old(l.toks[k].val))
 
 //@ func (*lexer).errShort serves C01 C02 C16 C09
@@ -277,11 +279,12 @@ package larking
 //@   requires LexInv(l)
 //@   modifies F$lexer.len, F$lexer.start, E$token
 //@   ensures [inv] LexInv(l) && err != nil
+//@   ensures [elem-frame] frame_elems(l.toks)
 //@   ensures [frame] forall k :: 0 <= k && k < old(l.len) ==> l.toks[k].typ == old(l.toks[k].typ) && same(l.toks[k].val, old(l.toks[k].val))
 
 //@ func (*lexer).tokens serves C01 C09
 //@   requires LexInv(l)
-//@   ensures [view] len(result) == l.len
+//@   ensures [view] len(result) == l.len && off(result) == 0 && base(result) == base(l.toks)
 
 // Token kinds (lexer.go constants) used in specs.
 //@ spec IsSep(t) = t == tokenSlash || t == tokenVerb
@@ -306,6 +309,7 @@ package larking
 //@   modifies F$lexer.pos, F$lexer.width, F$lexer.len, F$lexer.start, E$token
 //@   ensures [inv] LexInv(l)
 //@   ensures [frame] forall k :: 0 <= k && k < old(l.len) ==> l.toks[k].typ == old(l.toks[k].typ) && same(l.toks[k].val, old(l.toks[k].val))
+//@   ensures [elem-frame] frame_elems(l.toks)
 //@   ensures [segment] err == nil ==> l.len == old(l.len) + 1 && l.start == l.pos && l.pos > old(l.pos)
 //@        && l.toks[old(l.len)].typ == tokenPath && same(l.toks[old(l.len)].val, l.input[old(l.pos):l.pos])
 //@        && NoSepIn(l.input[old(l.pos):l.pos])
@@ -316,7 +320,8 @@ package larking
 //@   modifies F$lexer.pos, F$lexer.width, F$lexer.len, F$lexer.start, E$token
 //@   ensures [inv] LexInv(l)
 //@   ensures [shape] err == nil ==> PathToks(l)
-//@   loop 1 invariant LexInv(l) && l.start == l.pos && PathPrefix(l, l.len)
+//@   ensures [elem-frame] frame_elems(l.toks)
+//@   loop 1 invariant LexInv(l) && l.start == l.pos && PathPrefix(l, l.len) && frame_elems(l.toks)
 //@   loop 1 invariant l.len > 0 ==> l.toks[l.len-1].typ == tokenPath
 //@   loop 1 decreases len(l.input) - l.pos
 
@@ -349,6 +354,10 @@ package larking
 //@   loop 1 invariant -1 <= rangeindex && rangeindex < len(toks)
 //@   loop 1 invariant forall x :: {at(toks, x).typ} off(toks) <= x && x <= off(toks) + rangeindex ==> (s & at(toks, x).typ) == 0
 //@   loop 1 decreases len(toks) - rangeindex
+
+// The token arrays referenced by variable.toks are written once at registration
+// (ownership passes from addRule's lexer to the variable) and never again.
+//@ region variable.toks
 
 // rules.go: variable patterns. A pattern alternates segment tokens
 // (literal, *, **) and slashes, starts and ends with a segment token.
@@ -405,3 +414,9 @@ package larking
 //@   ensures [found] err == nil ==> m != nil && len(m.vars) == gf(p, "depth") + len(ps)
 //@   loop 1 invariant -1 <= rangeindex && rangeindex < len(p.variables)
 //@   loop 1 decreases len(p.variables) - rangeindex
+
+//@ func (*path).match serves C01 C02 C09
+//@   returns (m, ps, err)
+//@   requires p != nil && TrieWf()
+//@   modifies F$lexer, E$token, E$param
+//@   ensures [found] err == nil ==> m != nil && len(m.vars) == gf(p, "depth") + len(ps)
